@@ -71,6 +71,7 @@ func cmdFunc(args []string) {
 	dump := fs.Bool("dump", false, "keep SMT files and print path")
 	verbose := fs.Bool("v", false, "verbose")
 	quiet := fs.Bool("q", false, "only print obligations that did not discharge")
+	propFlag := fs.String("prop", "", "slice callee postconditions for this property, as the check does")
 	pkgsFlag := fs.String("pkgs", "./...", "package patterns")
 	fs.Parse(args)
 	specs, err := loadSpecs()
@@ -140,7 +141,7 @@ func cmdFunc(args []string) {
 					ct.Pkg = fn.Pkg.Pkg.Path()
 				}
 			}
-			vc := genFunction(ld, specs, fn, ct, GenOpts{Safety: *safety})
+			vc := genFunction(ld, specs, fn, ct, GenOpts{Safety: *safety, Prop: *propFlag})
 			fmt.Printf("== %s: %d obligations, %d instrs\n", vc.Label, len(vc.Obls), vc.Instrs)
 			if vc.GenErr != "" {
 				fmt.Println("   GENERATOR ERROR:", vc.GenErr)
